@@ -219,12 +219,16 @@ def r04_3(ctx) -> None:
             if fn.name == name:
                 return fn
         raise AnalysisError(f"rfc7516.json:{name} vanished")
-    rep_common = f("__represent_json_serialization")
-    ext_common = f("__extract_segments")
+    def f_opt(name):
+        # a shared private helper may have been written out into its callers (then what it wrote is in them)
+        return next((fn for fn in J.functions if fn.name == name), None)
+    rep_common = f_opt("__represent_json_serialization")
+    ext_common = f_opt("__extract_segments")
     for kind in ("general", "flattened"):
         rep, ext = f(f"represent_{kind}_json"), f(f"extract_{kind}_json")
-        helpers_r = [rep, rep_common]
-        helpers_e = [ext, ext_common] + [c for s in eng.cg.calls_in(ext) for c in s.callees if c.module is J and c not in (ext_common,)]
+        helpers_r = [h_ for h_ in (rep, rep_common) if h_ is not None]
+        helpers_r += [c for s in eng.cg.calls_in(rep) for c in s.callees if c.module is J and c not in helpers_r]
+        helpers_e = [h_ for h_ in (ext, ext_common) if h_ is not None] + [c for s in eng.cg.calls_in(ext) for c in s.callees if c.module is J and c not in (ext_common,)]
         written = set().union(*[_written_members(h) for h in helpers_r]) - {"k"}
         read = set()
         for h in helpers_e:
@@ -250,7 +254,7 @@ def r04_3(ctx) -> None:
         ctx.count("R04.16", len(demanded & want), 1, f"members the {kind} JSON reader demands on every path")
     # optional members are written when (not unless) their value is present
     nst = 0
-    for h in (f("represent_general_json"), f("represent_flattened_json"), rep_common):
+    for h in [x_ for x_ in (f("represent_general_json"), f("represent_flattened_json"), rep_common) if x_ is not None]:
         nst += 1
         bad = misguarded_member_stores(eng, h)
         ctx.check(not bad, "R04.3", h, bad[0][0] if bad else h.node, f"{h.short} :: optional members", f"JSON writer: {bad[0][1] if bad else ''}", "if value: data[member] = value",
@@ -739,6 +743,12 @@ def run(ctx) -> None:
     ctx.guard_as("R04.10", r08_3)  # plaintext shapes (empty, block-aligned): AES-CBC with PKCS#7 padding from the library, CBC-HMAC layout
     from .c08 import r08_4
     ctx.guard_as("R04.13", r08_4)  # ECDH-1PU: both sides compute Ze and Zs from the same key pairs (own private x other public), or nothing decrypts
+    from .c14 import r14_2 as _r14_2
+    from .common import JWE_PRODUCE as _JP, JWE_CONSUME as _JC, entries as _entries, scope_of as _scope_of
+    _within = set()
+    for _e in _entries(ctx.eng, _JP + _JC):
+        _within.update(_scope_of(ctx.eng, _e))
+    ctx.guard(_r14_2, "R04.23", _within)  # encryption with a key set and no kid picks a key (use_random reaches guess_key) - or nothing is produced at all
     from .common import every_recipient_tried
     ctx.guard(every_recipient_tried, "R04.22")  # each recipient's key decrypts a multi-recipient message, whatever its position in the list
     from .c08 import r08_5 as _r08_5
